@@ -155,11 +155,12 @@ Fixpoint remove_z (x : Z) (l : list Z) : list Z :=
   match l with [] => [] | y :: r => if x =? y then remove_z x r else y :: remove_z x r end.
 
 (* hooks.OnAvailable / OnOnline / OnDemand: the call, and the closure it returns *)
-Definition hook_open (k : hk) : M :=
-  fun s => (s, EOpen k :: (if h_start k (s_conf s) then [ELogStart k] else [])).
-Definition hook_close (k : hk) : M :=
-  fun s => (s, EClose k :: (if h_start k (s_conf s) then [ELogStop k] else [])
-                        ++ (if h_un k (s_conf s) then [ELogLaunch k] else [])).
+Definition open_logs (k : hk) (cf : pconf) : list pevent :=
+  if h_start k cf then [ELogStart k] else [].
+Definition close_logs (k : hk) (cf : pconf) : list pevent :=
+  (if h_start k cf then [ELogStop k] else []) ++ (if h_un k cf then [ELogLaunch k] else []).
+Definition hook_open (k : hk) : M := fun s => (s, EOpen k :: open_logs k (s_conf s)).
+Definition hook_close (k : hk) : M := fun s => (s, EClose k :: close_logs k (s_conf s)).
 Definition panic : M := fun s => (set_closed true s, [EPanic]).
 
 (* setOffline *)
